@@ -159,6 +159,20 @@ def check(ctx):
     for k in (1, 2, 4):
         fw.run_suite(ctx, exe, "S-rtp/misaligned@+%d" % k, mis[k::3], "radiotap decode of a header at a misaligned address", env={"LWV_MISALIGN": str(k)})
 
+    # the supplied length is a size_t while it_len and the iterator's bound are 16-bit / int quantities: well-formed headers
+    # in front of buffers whose total length sits at and just beyond every width the length could be narrowed to
+    # (2^15, 2^16, 2^17; 2^16 + k for k below, at and above the header's own length)
+    lad = []
+    for words in ([{"fields": [1, 2, 3, 5]}], [{"fields": [0, 3, 5, 14, 19, 22]}], [{"fields": [1, 5], "reset": True}, {"fields": [5, 11]}]):
+        h = rtbuild.build(words, rnd)
+        il = int.from_bytes(h[2:4], "little")
+        h = h[:il]
+        for n in sorted({32766, 32767, 32768, 32768 + il, 65535, 65536, 65537, 65536 + 7, 65536 + 8, 65536 + il - 1, 65536 + il, 65546, 70000, 131072, 131072 + il - 1}):
+            buf = h + bytes(rnd.getrandbits(8) for _ in range(256)) + bytes(n - len(h) - 256)
+            lad.append("rtp " + buf.hex())
+            lad.append("rssi " + buf.hex())
+    fw.run_suite(ctx, exe, "S-rtp/size-ladder", lad, "radiotap decode in front of long buffers (length narrowing)")
+
     ci = fw.corpus_inputs(ctx, random.Random(ctx.seed + 77))
     fw.run_suite(ctx, exe, "S-rtp/corpus", sorted({"rtp " + (b.hex() or "-") for rt, b in ci}), "radiotap decode (coverage-guided corpus + mutants)")
     fw.conclude(ctx, broken)
